@@ -613,3 +613,31 @@ def guard_object_mismatch(fn):
                         if key in names and c.func.value.id != gobj:
                             out.append((st, gobj, c.func.value.id))
     return out
+
+
+def attr_alias_inplace(fn):
+    """`x = self.ATTR` (the attribute object itself, no copy) followed by `x <op>= ...` where x is used as an array (subscripted, or
+    asked for .size / .shape / .astype): the in-place operator changes the array the receiver's attribute refers to - the receiver
+    is modified by what looks like a computation on a local.  -> [(aug stmt, local, attribute text)]"""
+    out = []
+    params = [a.arg for a in fn.args.args]
+    recv = params[0] if params else None
+    if recv not in ('self',):
+        return out
+    src = {}
+    stmts = list(iter_stmts(fn.body))
+    for i, st in enumerate(stmts):
+        if isinstance(st, ast.Assign) and len(st.targets) == 1 and isinstance(st.targets[0], ast.Name):
+            v = st.value
+            if isinstance(v, ast.Attribute) and isinstance(v.value, ast.Name) and v.value.id == recv and not v.attr.startswith('_'):
+                src[st.targets[0].id] = norm(v)
+            else:
+                src.pop(st.targets[0].id, None)
+        if isinstance(st, ast.AugAssign) and isinstance(st.target, ast.Name) and st.target.id in src:
+            nm = st.target.id
+            arrayish = any((isinstance(n, ast.Subscript) and isinstance(n.value, ast.Name) and n.value.id == nm) or
+                           (isinstance(n, ast.Attribute) and isinstance(n.value, ast.Name) and n.value.id == nm and n.attr in ('size', 'shape', 'astype', 'ndim', 'T'))
+                           for n in ast.walk(fn))
+            if arrayish:
+                out.append((st, nm, src[nm]))
+    return out
